@@ -2,7 +2,7 @@
    alike from every value: nav1f) are both accepted and return the same results, or both fail; and the spellings that mean
    the same: .name / ['name'] / ["name"], .* / [*], an index or slice bound with a plus sign or leading zeros, a number
    literal written differently, a filter whose inner steps are respelled. *)
-From JP Require Import Peg Grammar Slice Text Tree Actions Json Eval WF Spec SortFacts EvalInv1 EvalInv4 EvalTop EndToEnd Codec KeyDefs KeyParse IdxParse SliceParse UnionParse WildParse RecParse ChainParse SpacePath FunParse AggParse FiltParse CmpParse NegFilt LitParse RootOp RegexOp QueryParse FiltChain ChainAddr FunAddr AggAddr FiltAddr CmpAddr QueryAddr FiltChainAddr.
+From JP Require Import Peg Grammar Slice Text Tree Actions Json Eval WF Spec SortFacts EvalInv1 EvalInv4 EvalTop EndToEnd Codec KeyDefs KeyParse IdxParse SliceParse UnionParse WildParse RecParse ChainParse SpacePath FunParse AggParse FiltParse CmpParse NegFilt LitParse RootOp RegexOp QueryParse FiltSpace QuerySpace FiltChain ChainAddr FunAddr AggAddr FiltAddr CmpAddr QueryAddr FiltChainAddr.
 From Coq Require Import Lia.
 Open Scope list_scope.
 
@@ -119,4 +119,7 @@ Section SpellText.
   (* blanks inside an existence filter or its negation change nothing *)
   Lemma spaced_filter_spellings i g0 gn g1 : same_step (FE i) (FES false g0 gn i g1) /\ same_step (FN i) (FES true g0 gn i g1).
   Proof. split; intros root lv; reflexivity. Qed.
+  (* blanks inside a query in disjunctive form — after `?(`, `!`, around operators, after every basic query, `&&` and `||` — change nothing *)
+  Lemma spaced_query_spellings g0 d : same_step (FQ (unspace_dnf d)) (FQS g0 d).
+  Proof. intros root lv. reflexivity. Qed.
 End SpellText.
